@@ -7,7 +7,7 @@ set -u
 cd /verif
 trap 'git -C /repo checkout -- . 2>/dev/null' EXIT
 [ -z "$(git -C /repo status --porcelain)" ] || { echo "/repo is not clean"; exit 2; }
-out=seeded/SWEEP.md
+out=${SWEEP_OUT:-seeded/SWEEP.md}
 {
 echo "# Seeded changes applied to /repo itself (git apply / quick check / git checkout -- .)"
 echo
@@ -18,7 +18,7 @@ echo "|---|---|---|---|---|"
 } > $out
 for d in $(ls -d seeded/C*-* | sort -t- -k1,1 -k2,2n); do
   name=$(basename $d); id=${name%%-*}
-  if [ $# -gt 0 ]; then case " $* " in *" $id "*) ;; *) continue;; esac; fi
+  if [ $# -gt 0 ]; then case " $* " in *" $id "*|*" $name "*) ;; *) continue;; esac; fi
   chk=$id
   case $name in C03-6) chk=C10;; C10-4|C10-8) chk=C11;; esac
   if ! git -C /repo apply --check $PWD/$d/patch.diff 2>/dev/null; then
